@@ -18,7 +18,7 @@ AUREL_OF = {"alp": "alpha", "rho": "rho0"}
 
 def run_chunks(M, ghosts, cutopts, family, orders, simulate=None, seed=None):
     co = " @@ ".join(f"({n} :> {{" + ", ".join("{" + ", ".join(map(str, c)) + "}" for c in opts) + "})" for n, opts in cutopts.items())
-    defs = {"M": f"<<{M[0]},{M[1]},{M[2]}>>", "Ghosts": "{" + ",".join(map(str, ghosts)) + "}", "CutOptions": co,
+    defs = {"M": f"<<{M[0]},{M[1]},{M[2]}>>", "Ghosts": "{" + ", ".join("<<%d, %d, %d>>" % G.g3(g) for g in ghosts) + "}", "CutOptions": co,
             "Orders": "{" + ", ".join(f'"{o}"' for o in orders) + "}"}
     name, text, cl = wrapper("Chunks", defs)
     cfg = f"""SPECIFICATION Spec
@@ -47,7 +47,7 @@ def check_decomposition(job):
     """One Chunks state: join_chunks directly (two enumeration orders) and read_data on a generated directory."""
     dec, layout_idx, seq = job
     import aurel.reading as R
-    M, g = tuple(dec["M"]), dec["ghost"]
+    M, g = tuple(dec["M"]), tuple(dec["ghost"])
     chunks = sorted(dec["chunks"], key=lambda c: c["c"])
     findings = []
     sigbase = {"nchunks": len(chunks) if len(chunks) < 4 else "4+", "family": dec["family"]}
@@ -59,7 +59,7 @@ def check_decomposition(job):
         cut = {}
         for ch in order:
             p = G.piece(E, ch, g)
-            cut[(ch["x"][0], ch["y"][0], ch["z"][0])] = p[g:-g, g:-g, g:-g]
+            cut[(ch["x"][0], ch["y"][0], ch["z"][0])] = G.strip(p, g)
         try:
             got = R.fixij(R.join_chunks(cut))
             ok = got.shape == want.shape and np.array_equal(got, want)
@@ -166,6 +166,9 @@ TWO_CHUNKS = {0: None,
               2: lambda M: [{"c": 1, "x": [0, 1], "y": [0, M[1]], "z": [0, M[2]]}, {"c": 0, "x": [1, M[0]], "y": [0, M[1]], "z": [0, M[2]]}]}
 
 
+SIM_GHOSTS = [1, 2, 3, (1, 2, 3), (2, 1, 1)]
+
+
 def check_sim(job):
     """One ETSim state: generate the directory, run every admissible request with the real read_data."""
     st, seq = job
@@ -179,14 +182,17 @@ def check_sim(job):
     try:
         name = "run_a" if seq % 2 else "bbh"
         restarts = [dict(r) for r in st["restarts"]]
-        G.make_sim(tmp + "/", name, restarts, M=M, ghost=1 + seq % 3, chunks=chunks, layout=layout, nlev=st["nlev"])
+        G.make_sim(tmp + "/", name, restarts, M=M, ghost=SIM_GHOSTS[seq % len(SIM_GHOSTS)], chunks=chunks, layout=layout, nlev=st["nlev"])
         param = sim_param(tmp, name)
-        for rd in st["reads"]:
+        for nrd, rd in enumerate(st["reads"]):
             q, res = rd["q"], rd["res"]
             sig_shape = {"restarts": len(restarts), "overlapping": bool(st["overlapping"]),
                          "strides": "mixed" if len({r["every"] for r in restarts}) > 1 else "same"}
             it_arg, vars_arg = list(q["it"]), list(q["vars"])
-            kw = dict(it=it_arg, vars=vars_arg, rl=q["rl"], split_per_it=False, verbose=False, skip_last=False)
+            # every other request goes through the default split_per_it=True path (which also files what it read in all_iterations/)
+            split = (seq + nrd) % 2 == 1
+            sig_shape["split_per_it"] = split
+            kw = dict(it=it_arg, vars=vars_arg, rl=q["rl"], split_per_it=split, verbose=False, skip_last=False)
             if q["restart"] >= 0:
                 kw["restart"] = q["restart"]
             try:
@@ -238,7 +244,7 @@ def check_sim(job):
                     break
             if bad:
                 findings.append(({"clause": "ReadEqualsTruth", **sig_shape},
-                                 f"read_data(it={q['it']}, vars={q['vars']}, rl={q['rl']}, restart={q['restart']}) on restarts {restarts} "
+                                 f"read_data(it={q['it']}, vars={q['vars']}, rl={q['rl']}, restart={q['restart']}, split_per_it={split}) on restarts {restarts} "
                                  f"({'-'.join(layout)}): {bad}", {"state": st, "query": q}))
     finally:
         shutil.rmtree(tmp, ignore_errors=True)
@@ -247,15 +253,18 @@ def check_sim(job):
 
 # ---------------------------------------------------------------------------
 # C12: the per-iteration read cache
-CACHE_RESTARTS = [{"lo": 0, "hi": 8, "every": 4}, {"lo": 8, "hi": 16, "every": 4}]
+CACHE_RESTARTS = [{"lo": 0, "hi": 12, "every": 4}, {"lo": 12, "hi": 20, "every": 4}]
+CACHE_NAMES = {"alpha": ["alp"], "betax": ["betax"], "betay": ["betay"], "betaz": ["betaz"], "betaup3": ["betax", "betay", "betaz"]}
 CACHE_QUERIES = [
-    {"it": [i], "vars": v, "rl": rl, "split": sp}
-    for i in ([4], [8], [4, 8], [0, 4, 8, 12], [12, 8])
-    for v in (["betax"], ["betax", "betay", "betaz"], ["alp"], ["betay", "alp"])
+    {"it": i, "names": v, "rl": rl, "split": sp}
+    for i in ([4], [8], [4, 8], [0, 4, 8, 12], [12, 8], [16, 4, 8])
+    for v in (["betax"], ["betaup3"], ["alpha"], ["betay", "alpha"], ["betaup3", "betax"])
     for rl in (0, 1) for sp in (True, False)
 ]
-CACHE_QUERIES = [dict(q, it=q["it"][0]) for q in CACHE_QUERIES]
-TENSOR_NAME = {("betax", "betay", "betaz"): ["betaup3"]}
+
+
+def cache_serving(i):
+    return max(k for k, r in enumerate(CACHE_RESTARTS) if r["lo"] <= i <= r["hi"] and i % r["every"] == 0)
 
 
 def run_readcache(max_reads, queries=None, simulate=None, seed=None):
@@ -263,8 +272,9 @@ def run_readcache(max_reads, queries=None, simulate=None, seed=None):
     q = lambda s: '"' + s + '"'
     seq = lambda xs, f=str: "<<" + ", ".join(f(x) for x in xs) + ">>"
     defs = {"Restarts": seq([f"[lo |-> {r['lo']}, hi |-> {r['hi']}, every |-> {r['every']}]" for r in CACHE_RESTARTS]),
-            "Queries": "{" + ", ".join(f"[it |-> {seq(x['it'])}, vars |-> {seq(x['vars'], q)}, rl |-> {x['rl']}, split |-> {'TRUE' if x['split'] else 'FALSE'}]"
-                                       for x in queries) + "}"}
+            "Queries": "{" + ", ".join(f"[it |-> {seq(x['it'])}, names |-> {seq(x['names'], q)}, rl |-> {x['rl']}, split |-> {'TRUE' if x['split'] else 'FALSE'}]"
+                                       for x in queries) + "}",
+            "Components": "[" + ", ".join(f"{n} |-> {{" + ", ".join(q(v) for v in vs) + "}" for n, vs in CACHE_NAMES.items()) + "]"}
     name, text, cl = wrapper("ReadCache", defs)
     cfg = f"""SPECIFICATION Spec
 CONSTANTS
@@ -309,7 +319,7 @@ def decode_cache(root, name, M, nrestarts):
                         if not ok and a.shape == tuple(M):
                             for r2 in range(nrestarts):
                                 for rl2 in range(2):
-                                    for i2 in range(0, 20, 4):
+                                    for i2 in range(0, 24, 4):
                                         for c2 in G.VARS_DEFAULT:
                                             if np.array_equal(a, G.truth(c2, r2, i2, rl2, M)):
                                                 detail = {"holds_var": c2, "restart": r2, "it": i2, "rl": rl2}
@@ -333,11 +343,10 @@ def check_cache_history(job):
         full = recs[-1]["hist"]
         by_len = {len(r["hist"]): r for r in recs}
         for n, q in enumerate(full, start=1):
-            comps = list(q["vars"])
-            vars_arg = TENSOR_NAME.get(tuple(comps), [AUREL_OF.get(c, c) for c in comps])
-            vars_arg = list(vars_arg)
+            comps = sorted({c for nm in q["names"] for c in CACHE_NAMES[nm]})
+            vars_arg = list(q["names"])
             it_arg = list(q["it"])
-            hist_txt = "; ".join(f"read(it={x['it']}, vars={x['vars']}, rl={x['rl']}, split_per_it={x['split']})" for x in full[:n])
+            hist_txt = "; ".join(f"read(it={x['it']}, vars={x['names']}, rl={x['rl']}, split_per_it={x['split']})" for x in full[:n])
             try:
                 d = R.read_data(param, it=it_arg, vars=vars_arg, rl=q["rl"], split_per_it=q["split"], verbose=False, skip_last=False)
             except Exception as ex:
@@ -352,7 +361,7 @@ def check_cache_history(job):
                 bad = f"it column {list(d['it'])}"
             else:
                 for k, i in enumerate(its):
-                    r = 1 if i >= 8 else 0
+                    r = cache_serving(i)
                     if d["t"][k] is None or float(d["t"][k]) != G.time_of(i):
                         bad = f"t at it={i} is {d['t'][k]}"
                         break
@@ -396,13 +405,18 @@ CAT_SHAPES = [
 CAT_NAMES = ["bbh", "my_restart_run", "arange_rl"]
 
 
-def run_catalogue(max_restarts, max_calls, names=None, layouts=None, simulate=None, seed=None, shapes=None):
+CAT_VARSETS = [["Bvec[0]", "Bvec[1]", "Bvec[2]", "bar", "foo"], ["bar", "baz", "foo"]]
+
+
+def run_catalogue(max_restarts, max_calls, names=None, layouts=None, simulate=None, seed=None, shapes=None, nlevels=(1, 2)):
     shapes = shapes or CAT_SHAPES
     names = names or CAT_NAMES
     layouts = layouts or LAYOUTS
     sh = "{" + ", ".join(f"[len0 |-> {s['len0']}, every0 |-> {s['every0']}, every1 |-> {s['every1']}, chk |-> {{" + ",".join(map(str, s["chk"])) + "}]" for s in shapes) + "}"
     defs = {"Shapes": sh, "Names": "{" + ", ".join(f'"{n}"' for n in names) + "}",
-            "Layouts": "{" + ", ".join(f'<<"{a}", "{b}">>' for a, b in layouts) + "}"}
+            "Layouts": "{" + ", ".join(f'<<"{a}", "{b}">>' for a, b in layouts) + "}",
+            "NLevels": "{" + ", ".join(map(str, nlevels)) + "}",
+            "VarSets": "<<" + ", ".join("{" + ", ".join(f'"{v}"' for v in vs) + "}" for vs in CAT_VARSETS) + ">>"}
     name, text, cl = wrapper("Catalogue", defs)
     cfg = f"""SPECIFICATION Spec
 CONSTANTS
@@ -538,8 +552,8 @@ def check_catalogue(job):
                             bad = f"restart {r}: 'rl = {l}' = {g.get(f'rl = {l}')}, on disk {list(want)}"
                     if sorted(g.get("checkpoints", [])) != sorted(sc["chk"]):
                         bad = f"restart {r}: checkpoints {g.get('checkpoints')}, on disk {sorted(sc['chk'])}"
-                    if set(g.get("var available", [])) != {"alpha", "betaup3"} | set(extra_vars(r)):
-                        bad = f"restart {r}: variables {g.get('var available')}, on disk alpha, betaup3, {extra_vars(r)}"
+                    if sorted(g.get("var available", [])) != sorted(sc["vars"]):
+                        bad = f"restart {r}: variables {g.get('var available')}, on disk {sorted(sc['vars'])}"
                     if bad:
                         break
                 if bad:
@@ -637,7 +651,7 @@ def G_make(tmp, name, k, r, M, chunks, layout, nlev):
     d = os.path.join(tmp, name, f"output-{k:04d}", name)
     os.makedirs(d, exist_ok=True)
     if k == 0:
-        G.write_par(os.path.join(tmp, name, "output-0000", name + ".par"), M)
+        G.write_par(os.path.join(tmp, name, "output-0000", name + ".par"), M, nlev=max(2, nlev))
     chunks = chunks or G.one_chunk(M)
     handles = {}
     for var in G.VARS_DEFAULT + extra_vars(k):
@@ -667,7 +681,7 @@ def G_make(tmp, name, k, r, M, chunks, layout, nlev):
 
 def extra_vars(k):
     """Variables of a thorn aurel does not know; the set written differs between restarts."""
-    return ["bar", "foo"] if k % 2 == 0 else ["bar", "baz", "foo"]
+    return list(CAT_VARSETS[k % len(CAT_VARSETS)])
 
 
 def expected_content(d, layout, chunks, k=0):
@@ -676,5 +690,6 @@ def expected_content(d, layout, chunks, k=0):
     if layout[1] == "grouped":
         return {("alp",): sorted(d + "admbase-lapse" + s + ".h5" for s in suffixes),
                 ("betax", "betay", "betaz"): sorted(d + "admbase-shift" + s + ".h5" for s in suffixes),
-                tuple(extra_vars(k)): sorted(d + "mythorn-stuff" + s + ".h5" for s in suffixes)}
+                **{tuple(sorted(v for v in extra_vars(k) if G.GROUPS[v][1] == grp)): sorted(d + grp + s + ".h5" for s in suffixes)
+                   for grp in sorted({G.GROUPS[v][1] for v in extra_vars(k)})}}
     return {(v,): sorted(d + v + s + ".h5" for s in suffixes) for v in G.VARS_DEFAULT + extra_vars(k)}
